@@ -9,7 +9,9 @@ TEXT = {
  'C02': dict(level="Per-step theorems (C02_entityAdd, _entityDelete, _updatePose, _custom, _action, _assetAdd and the _refused/_dropped companions) prove that an "
                    "accepted change is delivered exactly once to every other member and never to its author, and a refused one to nobody, for every session "
                    "state with pairwise distinct connections - an invariant proved for every reachable state (run_WF). Sequential histories only; the "
-                   "concurrent clause and the per-sender order clause are checked by the correspondence run, not proved.",
+                   "concurrent clause is explored, not proved (every interleaving with at most two preemptions of 2-3 concurrent requests at lock granularity on the real "
+                   "handlers: explained by a serial order of the model, or else every accepted change relayed exactly once to every member that stays); the "
+                   "per-sender order clause is measured over real sockets (wire scenario order).",
              note=_std_note, technique=_tech),
  'C04': dict(level="The protocol's decision table is written out as Spec.expectedAnswer; C04_core_answer / _action_answer / _asset_answer / _dagaz_answer prove that every "
                    "request for which the table defines an answer gets exactly that one answer, to the requester (all other deliveries are relays); "
@@ -93,7 +95,9 @@ TEXT = {
                    "reachable - server state, an event of a connection that is not a participant of session x and does not ask to join x by id leaves x registered exactly as it was and delivers "
                    "nothing to its participants; ticks, the receipt consumer and new connections never touch a session), C03_history_frame (the same over any history), C03_local (a request's "
                    "deliveries and new session record are a function of the sender's own session record). Frame + locality are the unwinding conditions of noninterference; the trace-equivalence "
-                   "form itself (same streams with the other sessions' traffic removed) is NOT a Lean theorem here: it is measured on the real server by re-running histories without the outsiders.",
+                   "form itself (same streams with the other sessions' traffic removed) is NOT a Lean theorem here: it is measured on the real server by re-running histories without the outsiders. "
+                   "Also measured: the frame of a session drives the connections of exactly its members (after sequential events and right after concurrent blocks), and a session created "
+                   "within a concurrent block is not taken out of the registry by the end of the earlier holder of its number.",
              note=_std_note + " Reuse of a session id after the earlier session ended is covered through C07_fresh_session / C10 (uuid never reused) and by the cross-session monitors.",
              technique=_tech + " + noninterference re-run on the real server"),
  'C08': dict(level="PARTIAL: the life cycle of a connection handler is modelled (Model/Life.lean: main loop, sender and receiver goroutines, the disconnect-cause channel, the send queue, the scheduler "
@@ -119,7 +123,9 @@ TEXT = {
                    "of the updates received, and their last element is the latest received; C11_latest_arrives: once nothing is in flight the last consumed is the last received; "
                    "C11_sched_invariant / C11_handle_takes_oldest: every connection of every reachable server state satisfies the scheduler invariant, so the server's consumption step "
                    "takes the oldest queued update of the entity; C11_applied / C11_dropped / C11_gone_stays_gone: the handler stores and relays exactly the consumed pose for the owner, "
-                   "drops unknown / foreign / pose-less updates without effect, and an id that is gone is never reissued. Not proved: wall-clock frame timing ('within a few frames').",
+                   "drops unknown / foreign / pose-less updates without effect, and an id that is gone is never reissued. Not proved: wall-clock frame timing ('within a few frames'); that every "
+                   "frame of a session reaches the connection of every member - joins, switches and departures racing with each other included - is measured (L1 harness after every tick, and right "
+                   "after every explored concurrent block).",
              note=_std_note + " The scheduler lives in hagall-common (outside /repo): it is modelled from reading and tied by the correspondence (which message the real scheduler hands out is recorded "
                   "and compared) and by the pose-order monitor on recorded traces.", technique=_tech),
  'C20': dict(level="Index completeness proved for the cell bookkeeping the grid code performs (Model/GridIndex.lean: the append loops, the four edge loops of mergeQuads, the slice "
